@@ -9,6 +9,7 @@
 
 pub mod catalogue;
 pub mod catalogue2;
+pub mod catalogue3;
 mod inplace;
 mod layout;
 mod types;
